@@ -128,7 +128,7 @@ func genC01(t *rapid.T) c01Case {
 	if mode == "wide" {
 		return genC01Wide(t)
 	}
-	g := &fgen{t: t, maxAtoms: 4, maxDepth: 4, maxWidth: 3, quant: mode == "quantified", edges: 2, budget: 9, companions: true}
+	g := &fgen{t: t, maxAtoms: 4, maxDepth: 4, maxWidth: 3, quant: mode == "quantified", edges: 2, budget: 9, companions: true, viaPaths: true}
 	if thorough {
 		g.maxDepth, g.maxWidth, g.maxAtoms, g.budget = 6, 4, 5, 14
 	}
@@ -143,7 +143,11 @@ func genC01(t *rapid.T) c01Case {
 		if i > 0 {
 			g.budget = 6
 		}
-		f := g.formula(0)
+		limit := 40
+		if thorough {
+			limit = 100
+		}
+		f := g.bounded(limit)
 		name := fmt.Sprintf("v%d", i)
 		class := "ex.Test"
 		if mode == "quantified" {
@@ -153,6 +157,9 @@ func genC01(t *rapid.T) c01Case {
 		if rapid.IntRange(0, 2).Draw(t, "withTwin") != 0 {
 			budget := rapid.IntRange(1, 4).Draw(t, "rwBudget")
 			f2 := rewrite(t, f, &budget)
+			if f2.Cost() > 4*limit {
+				f2 = m.Not(m.Not(f))
+			}
 			c.Profile.Validations = append(c.Profile.Validations, m.Validation{Name: name + "rw", Level: pick(t, levels, "level"), Class: class, Body: f2})
 			c.Pairs = append(c.Pairs, [2]string{name, name + "rw"})
 		}
@@ -184,7 +191,7 @@ func genC01(t *rapid.T) c01Case {
 // genC01Wide: a wide or/and of conjunctions/disjunctions of several atoms (the shape where the translator builds a
 // cross product of failure branches), decided on every truth assignment, with a regrouped twin.
 func genC01Wide(t *rapid.T) c01Case {
-	g := &fgen{t: t, maxAtoms: 6, maxDepth: 1, maxWidth: 2, budget: 100}
+	g := &fgen{t: t, maxAtoms: 6, maxDepth: 1, maxWidth: 2, budget: 100, viaPaths: true}
 	if ev.Thorough() {
 		g.maxAtoms = 8
 	}
